@@ -166,6 +166,17 @@ def logic_cells(widths):
                       spec=lambda P, a: a != 0))
     cells.append(Cell(key="all_gen", ins=[("a", BV(3))], out=BIT, body="{o} <<= all([bit for bit in {a}])",
                       spec=lambda P, a: a == 7))
+    # explicit bool() casts of conditions (chains of casts must end at a temporary that is still assigned)
+    cells.append(Cell(key="boolcast|ifexpr", ins=[("a", U(w)), ("b", U(w))], out=U(w), body="{o} <<= {a} if bool({a} == {b}) else {b}",
+                      spec=lambda P, a, b: P.ite(a == b, a, b)))
+    cells.append(Cell(key="boolcast|twice", ins=[("a", U(w)), ("b", U(w)), ("c", BIT)], out=BIT, body="{o} <<= bool(bool({a} < {b}) and bool({c}))",
+                      spec=lambda P, a, b, c: P.land(a < b, c != 0)))
+    cells.append(Cell(key="boolcast|and", ins=[("a", U(w)), ("b", U(w)), ("c", BIT)], out=BIT, body="{o} <<= bool({a} == {b}) and bool({c})",
+                      spec=lambda P, a, b, c: P.land(a == b, c != 0)))
+    cells.append(Cell(key="boolcast|not", ins=[("a", S(w)), ("b", S(w))], out=BIT, body="{o} <<= not bool({a} >= {b})",
+                      spec=lambda P, a, b: P.lnot(a >= b)))
+    cells.append(Cell(key="boolcast|vector", ins=[("a", BV(w)), ("c", BIT)], out=BIT, body="{o} <<= {c} if bool({a}) else (not {c})",
+                      spec=lambda P, a, c: P.ite(a != 0, c != 0, c == 0)))
     # select_with
     cells.append(Cell(key="select_with|bv2", ins=[("s", BV(2)), ("a", U(w)), ("b", U(w)), ("c", U(w))], out=U(w),
                       body='{o} <<= cohdl.select_with({s}, {{"00": {a}, "01": {b}, "10": {c}}}, default={a} + {b})',
